@@ -144,6 +144,23 @@ def body_of(src, header_re):
     raise Fail("unbalanced braces")
 
 
+def run_other_extractors(repo, out):
+    """extractors owned by other suites: tools/extract.d/<name>.py REPO <lean model dir>; each writes
+    Model/Extracted<Name>.lean and, on failure, leaves the old file and makes us print which module is stale"""
+    import glob
+    import subprocess
+    ok = True
+    for ex in sorted(glob.glob(os.path.join(os.path.dirname(os.path.abspath(__file__)), "extract.d", "*.py"))):
+        r = subprocess.run([sys.executable, ex, repo, os.path.dirname(os.path.abspath(out))], stdout=subprocess.PIPE,
+                           stderr=subprocess.STDOUT, text=True)
+        sys.stdout.write(r.stdout)
+        if r.returncode != 0:
+            name = os.path.splitext(os.path.basename(ex))[0]
+            print("EXTRACTION FAILED [VarlinkVerif.Model.Extracted%s]: see above" % name.capitalize())
+            ok = False
+    return ok
+
+
 def main():
     repo, out = sys.argv[1], sys.argv[2]
     src = open(os.path.join(repo, "varlink/src/server.rs"), encoding="utf-8").read()
@@ -219,7 +236,10 @@ def main():
             raise Fail("`chain(unread.as_slice(), &mut br)` not found in the connection closure")
     except Fail as e:
         sys.stderr.write("extract.py: %s\n" % e)
-        print("EXTRACTION FAILED: %s" % e)
+        # the stale file stays (other properties' modules still build); the check marks the properties whose
+        # theorems are stated over this module as no longer shown
+        print("EXTRACTION FAILED [VarlinkVerif.Model.Extracted]: %s" % e)
+        run_other_extractors(repo, out)
         sys.exit(1)
     text = ["/-", "Model.Extracted — GENERATED by tools/extract.py from /repo/varlink/src/server.rs on every run.",
             "Do not edit: the theorems of C14/C15 are stated over these definitions.", "-/", "set_option linter.unusedVariables false", "namespace VV.Extracted", ""]
@@ -233,15 +253,8 @@ def main():
     if old != new:
         open(out, "w").write(new)
     print("extracted %d definitions" % len(defs))
-    # extractors owned by other suites: tools/extract.d/*.py REPO <lean model dir>
-    import glob
-    import subprocess
-    for ex in sorted(glob.glob(os.path.join(os.path.dirname(os.path.abspath(__file__)), "extract.d", "*.py"))):
-        r = subprocess.run([sys.executable, ex, repo, os.path.dirname(os.path.abspath(out))], stdout=subprocess.PIPE,
-                           stderr=subprocess.STDOUT, text=True)
-        sys.stdout.write(r.stdout)
-        if r.returncode != 0:
-            sys.exit(1)
+    if not run_other_extractors(repo, out):
+        sys.exit(1)
 
 
 if __name__ == "__main__":
